@@ -85,7 +85,8 @@ def judge_hours(case, hours, want):
     # every event is judged at its representative within +-12 h of Dhuhr
     hraw = dict(h)
     for n in ORDER:
-        if n != "Dhuhr" and h[n] is not None and math.isfinite(h[n]):
+        if n != "Dhuhr" and h[n] is not None and math.isfinite(h[n]) and abs(h[n] - dh) > 12.0 + 1e-9:
+            # (an event exactly 12 h from Dhuhr - the last latitude at which a twilight exists - keeps its side)
             h[n] = dh + ((h[n] - dh + 12.0) % 24.0) - 12.0
     if "dhuhr" in want:
         # the clock time is what is reported: evaluate the hour angle at that clock time ON THE REQUESTED DATE
@@ -99,7 +100,7 @@ def judge_hours(case, hours, want):
                 al = e.alt_at_offset(dh, t, dec)
                 if abs(al + aa) > 0.03:
                     out.append(("%s-angle" % nm.lower(), "%s: altitude with the date's declination is %.4f, configured -%.4f" % (nm, al, aa)))
-                if (t - dh) * sign < 0 or abs(t - dh) > 12:
+                if (t - dh) * sign < 0 or abs(t - dh) > 12 + 1e-6:
                     out.append(("%s-side" % nm.lower(), "%s at %.4f h is on the wrong side of Dhuhr %.4f h" % (nm, t, dh)))
     if "validity" in want:
         for nm, alt0 in (("Fajr", -aF), ("Isha", -aI), ("Shurooq", -0.833), ("Maghrib", -0.833)):
@@ -135,7 +136,7 @@ def judge_hours(case, hours, want):
             if not t1 < t2:
                 out.append(("order", "%s %.4f is not before %s %.4f" % (n1, t1, n2, t2)))
         for n, t in seq:
-            if abs(t - dh) > 12:
+            if abs(t - dh) > 12 + 1e-6:
                 out.append(("order-12h", "%s is more than 12 h from Dhuhr" % n))
     return out
 
